@@ -383,7 +383,17 @@ def cadence1(ctx: Ctx, chk) -> None:
     chk.rule(rule, "the saver is `while True: save; sleep(K)` with K <= 900 s, saving first, with no exit other than cancellation")
     pers = ctx.cls(PERS)
     start = pers.find_method("start")
-    bodies = [f for f in start.nested.values() if any(isinstance(n, ast.While) for n in ctx.own_nodes(f))]
+    # the saver body is the coroutine function start() hands to create_task: a closure of start or a method
+    bodies = []
+    for g_, c in lifecycle.create_task_sites(ctx):
+        if g_ is start and c.args and isinstance(c.args[0], ast.Call):
+            fn = c.args[0].func
+            if isinstance(fn, ast.Name) and fn.id in start.nested:
+                bodies.append(start.nested[fn.id])
+            elif isinstance(fn, ast.Attribute) and isinstance(fn.value, ast.Name) and fn.value.id == "self" and pers.find_method(fn.attr) is not None:
+                bodies.append(pers.find_method(fn.attr))
+    if not bodies:
+        bodies = [f for f in start.nested.values() if any(isinstance(n, ast.While) for n in ctx.own_nodes(f))]
     if len(bodies) != 1:
         raise AnalysisError("CADENCE-1: saver body not recognised")
     f = bodies[0]
@@ -452,7 +462,7 @@ def cadence1(ctx: Ctx, chk) -> None:
     chk.instance(rule)
     sites = [c for g_, c in lifecycle.create_task_sites(ctx) if g_ is start]
     key = f"{start.fq}::create_task"
-    if len(sites) == 1 and sites[0].args and isinstance(sites[0].args[0], ast.Call) and norm(sites[0].args[0].func) == f.name:
+    if len(sites) == 1 and sites[0].args and isinstance(sites[0].args[0], ast.Call) and norm(sites[0].args[0].func) in (f.name, f"self.{f.name}"):
         chk.ok(rule, key, f"asyncio.create_task({f.name}())", ctx.loc(start, sites[0]))
     else:
         chk.refute(rule, key, "Persistence.start does not run the saver body as a task", start.where)
